@@ -175,7 +175,7 @@ func emitEngine(r *core.Run, rule string) {
 			r.Note("%s", nn)
 		}
 	}
-	floors := map[string]int{"R-CURSOR": 500, "R-PROGRESS": 60, "R-EOF": 5, "R-ERRMOVE": 20, "R-TILE": 60, "R-SPELL": 60, "R-TAGSTATE": 10, "R-ERRSTUCK": 10}
+	floors := map[string]int{"R-CURSOR": 500, "R-PROGRESS": 60, "R-EOF": 5, "R-ERRMOVE": 20, "R-TILE": 60, "R-SPELL": 60, "R-TAGSTATE": 10, "R-ERRSTUCK": 12}
 	if _, filtered := pkgFilter[r.Prop]; !filtered && r.Prop != "C15" {
 		r.Floor("engine obligations "+rule, n, floors[rule])
 	} else {
@@ -438,7 +438,8 @@ func checkReturn(e *Engine, sp lexSpec, name string, st *State, ret []AbsVal, at
 		e.check(st, "R-ERRMOVE", key, pos, !silentMid, "the error token is returned after the cursor moved, without an error being recorded and not at end of input: the caller sees a bare error with Err() == nil/EOF in the middle of the data (e.g. the zero value of a failed table lookup)")
 		// R-ERRSTUCK
 		if st.errSet == 1 && !(st.atEOF && st.E == 0) {
-			e.check(st, "R-ERRSTUCK", key, pos, st.dispLo >= 1, "a lexical error is reported without consuming any input and not at end of input: every further call reports the same error again, so a caller that continues until io.EOF never terminates")
+			skey := fmt.Sprintf("%s error %q", name, st.errMsg)
+			e.check(st, "R-ERRSTUCK", skey, pos, st.dispLo >= 1, "a lexical error is reported without consuming any input and not at end of input: every further call reports the same error again, so a caller that continues until io.EOF never terminates")
 		}
 		return
 	}
